@@ -1314,8 +1314,45 @@ def drop_nested_fns(text, names, log):
     return ed.apply()
 
 
-def assemble(template_path, repo, cfgset=("debug_assertions",), variant="main"):
-    """Returns (assembled_text, info) ; info = {items, rewrites, linemap}"""
+def auto_helper_directives(repo, files, name):
+    """R20: a free function `name` that an extracted function calls but the unit does not list (a helper factored out
+    after authoring). If it is found in one of the unit's source files and is *expression-bodied* (one tail
+    expression: no statements, no closures, no loops, no `&mut` parameter, explicit return type) it can be taken with
+    the contract `ensures r == (<its own body>)`, which is exact for a pure total expression. Returns the directive
+    lines or None."""
+    for rel in files:
+        try:
+            sf = load(os.path.join(repo, rel))
+            it = find_item(sf, ["fn " + name])[-1]
+        except (Lost, OSError, TokError):
+            continue
+        text = sf.text(it.start, it.end)
+        try:
+            fa = FnAnatomy(text)
+        except Lost:
+            return None
+        T = fa.toks
+        if fa.arrow is None:
+            return None
+        body = T[fa.body_open + 1:fa.body_close]
+        if not body or any(t.text in (";", "loop", "while", "for", "let", "return", "unsafe", "move") for t in body):
+            return None
+        # a `|` / `||` that opens a closure follows `(`, `,`, `=` or starts the body; in patterns and boolean
+        # expressions it follows an operand
+        for k, t in enumerate(body):
+            if t.text in ("|", "||") and (k == 0 or body[k - 1].text in ("(", ",", "=", "=>", "{")):
+                return None
+        sig = T[:fa.body_open]
+        if any(sig[k].text == "&" and sig[k + 1].text == "mut" for k in range(len(sig) - 1)):
+            return None
+        btxt = " ".join(text[T[fa.body_open + 1].start:T[fa.body_close - 1].end].split())
+        return ["//@ extract %s :: fn %s" % (rel, name), "//@ ret shim_r", "//@ ensures shim_r == (%s)" % btxt]
+    return None
+
+
+def assemble(template_path, repo, cfgset=("debug_assertions",), variant="main", extra=()):
+    """Returns (assembled_text, info) ; info = {items, rewrites, linemap}.  `extra`: directive lines (auto-extracted
+    helpers, rule R20) spliced in before the unit's closing `} fn main() {}` line."""
     root = os.path.dirname(os.path.dirname(os.path.abspath(template_path)))
     includes = []
 
@@ -1333,6 +1370,9 @@ def assemble(template_path, repo, cfgset=("debug_assertions",), variant="main"):
                     res.append(ln)
         return res
     lines = expand(template_path)
+    if extra:
+        k = max(i for i, ln in enumerate(lines) if ln.strip().startswith("} fn main()"))
+        lines = lines[:k] + list(extra) + lines[k:]
     del SEQ_REWRITES[:]
     BSTR_DEFS.clear(); BSTR_EMITTED.clear()
     out = []
